@@ -483,6 +483,12 @@ class Sim(object):
         P.time = _FakeTime(self.k)
         W.tornado_sleep = self._tornado_sleep
         A.tornado_sleep = self._tornado_sleep
+        lg = logging.getLogger("circus")
+        self._saved_log = (lg.level, lg.propagate)
+        self._log_handler = _Capture(self.errors)
+        lg.addHandler(self._log_handler)
+        lg.setLevel(logging.ERROR)
+        lg.propagate = False
         self.aloop = asyncio.new_event_loop()
         asyncio.set_event_loop(self.aloop)
         self.aloop.set_exception_handler(self._on_exc)
@@ -510,12 +516,7 @@ class Sim(object):
         self.arb.ctrl.started = True          # so that Controller.stop() closes the stream as in the daemon
         self.arb.ctrl.caller = None
         self.arb.ctrl.ctrl_socket = _Closable()
-        self._log_handler = _Capture(self.errors)
-        lg = logging.getLogger("circus")
-        self._saved_log = (lg.level, lg.propagate)
-        lg.addHandler(self._log_handler)
-        lg.setLevel(logging.ERROR)
-        lg.propagate = False
+
 
     def make_watcher(self, w, counters):
         import circus.watcher as W
